@@ -353,6 +353,7 @@ func VerifC15_Parse() {
 	Req.add(&vFld{num: 5, name: "r", typ: descriptorpb.FieldDescriptorProto_TYPE_INT32, repeated: true})
 	Req.addMap(6, "ms", descriptorpb.FieldDescriptorProto_TYPE_STRING, descriptorpb.FieldDescriptorProto_TYPE_SINT64, nil)
 	Req.add(&vFld{num: fn, name: "s_val", js: "sVal", typ: k})
+	Req.add(&vFld{num: fn + 1, name: "rk", typ: k, repeated: true}) // repeated field of the kind under test (packedness)
 	Resp := vNewMsg("Resp", "pb.Resp")
 	Resp.add(&vFld{num: 1, name: "b", typ: descriptorpb.FieldDescriptorProto_TYPE_MESSAGE, msg: B})
 	Resp.add(&vFld{num: 2, name: "am", typ: descriptorpb.FieldDescriptorProto_TYPE_MESSAGE, msg: AM})
